@@ -12,7 +12,10 @@
 (*   AddASE(j, a)  add_ase: a[c] watts of noise are ADDED to the channel: P and A grow by a[c]              *)
 (*   AddNLI(j, r)  add_nli: the fraction r[c] = nli/pch of the channel power is TRANSFERRED to N:           *)
 (*                 P is kept; S, A, N each give up their fraction r and N receives r*P                      *)
-(*   Demux(k, sw)  demuxed_spectral_information per band: the spectrum is split at a band boundary          *)
+(*   Demux(M)      demuxed_spectral_information / select_channels: the channels M are taken out as one     *)
+(*                 spectrum, the others form the second one; M may be a band, the complement of a band      *)
+(*                 (so the band in the middle of a comb) or any other selection - a later Mux then          *)
+(*                 INTERLEAVES the two spectra                                                               *)
 (*   Mux           muxed_spectral_information: the bands are re-assembled in frequency order                 *)
 (* j designates the (sub-)spectrum an operation acts on: between Demux and Mux each band is processed by    *)
 (* its own amplifier (Multiband_amplifier), otherwise there is one spectrum.                                 *)
@@ -26,7 +29,7 @@ CONSTANTS NCh,        \* number of launched channels; a channel's id is its rank
           ScaleArgs,  \* set of vectors <<f_1, ..., f_NCh>> of gain/loss factors (> 0)
           AseArgs,    \* set of vectors of added ASE powers (>= 0)
           NliArgs,    \* set of vectors of transferred fractions r = nli / pch, 0 <= r < 1
-          Cuts        \* band boundaries k: Demux(k) separates channels 1..k from k+1..NCh
+          Splits      \* set of channel selections M: Demux(M) separates the channels of M from the others
 
 ASSUME /\ NCh \in Nat \ {0}
        /\ \A c \in 1..NCh : IsRat(Launch[c]) /\ RLt(RZero, Launch[c])
@@ -34,7 +37,7 @@ ASSUME /\ NCh \in Nat \ {0}
        /\ \A a \in AseArgs : \A c \in 1..NCh : IsRat(a[c]) /\ RLeq(RZero, a[c])
        \* the property's precondition nli <= pch; r = 1 would leave no signal at all (every figure 0/0)
        /\ \A r \in NliArgs : \A c \in 1..NCh : IsRat(r[c]) /\ RLeq(RZero, r[c]) /\ RLt(r[c], ROne)
-       /\ Cuts \subseteq 1..(NCh - 1)
+       /\ \A M \in Splits : M \subseteq 1..NCh /\ M # {} /\ M # 1..NCh
 
 VARIABLES parts,   \* sequence of spectra; a spectrum is a sequence of channel records [id, P, S, A, N]
           last     \* the operation that produced this state: [op, j, arg] (arg: per-channel vector or <<>>)
@@ -70,12 +73,11 @@ AddNLI(j, r) == /\ parts' = OnPart(parts, j, LAMBDA ch : NliCh(ch, r[ch.id]))
                                                     THEN RMul(r[c], (CHOOSE ch \in {parts[j][k] : k \in 1..Len(parts[j])} : ch.id = c).P)
                                                     ELSE RZero]]
 
-\* the two bands are handed to their amplifiers in configuration order, which need not be frequency order (sw)
-Demux(k, sw) == /\ Len(parts) = 1
-                /\ LET lo == SelectSeq(parts[1], LAMBDA ch : ch.id <= k)
-                       hi == SelectSeq(parts[1], LAMBDA ch : ch.id > k)
-                   IN parts' = IF sw THEN <<hi, lo>> ELSE <<lo, hi>>
-                /\ last' = [op |-> "Demux", j |-> k, arg |-> NoArg]
+\* the selected channels first: when M is the upper band the spectra are handed on (and merged again) high band first,
+\* as Multiband_amplifier does with its amplifiers in configuration order
+Demux(M) == /\ Len(parts) = 1
+            /\ parts' = << SelectSeq(parts[1], LAMBDA ch : ch.id \in M), SelectSeq(parts[1], LAMBDA ch : ch.id \notin M) >>
+            /\ last' = [op |-> "Demux", j |-> 0, arg |-> NoArg]
 
 \* SpectralInformation.__add__ appends and the constructor sorts by frequency
 Mux == /\ Len(parts) = 2
@@ -86,7 +88,7 @@ Mux == /\ Len(parts) = 2
 Next == \/ \E j \in 1..Len(parts) : \/ \E f \in ScaleArgs : Scale(j, f)
                                     \/ \E a \in AseArgs : AddASE(j, a)
                                     \/ \E r \in NliArgs : AddNLI(j, r)
-        \/ \E k \in Cuts : \E sw \in BOOLEAN : Demux(k, sw)
+        \/ \E M \in Splits : Demux(M)
         \/ Mux
 Spec == Init /\ [][Next]_vars
 
